@@ -24,7 +24,14 @@ TRUSTED = ["Coq 8.16.1 kernel, vm_compute for the correspondence evaluation",
            "np.linalg.solve (2x2) is modelled by Cramer's rule and tied by the correspondence check only",
            "NumPy, vg"]
 CASE_IMPORTS = [("PW.model", "M_line")]
-ASSUMPTIONS = ["theorems are about exact real arithmetic; binary64 rounding is covered only by the tolerance of the "
+DEFINITIONAL = ["C18_projection_stacked_is_rowwise", "C18_line_methods_delegate"]
+ASSUMPTIONS = ["the real-number projection theorem cannot see overflow / underflow of the squared norm of a direction "
+               "vector: direction lengths outside about [1e-150, 1e150] are judged by the correspondence and the oracle only "
+               "(stream proj_extreme; known finding projection_direction_overflow until "
+               "fixes/C18-projection-extreme-lengths.diff is applied)",
+               "Line refuses non-zero directions whose components are all <= 1e-8 (vg.almost_zero): stated as "
+               "C18_line_accepts_any_nonzero_direction_refuted / known finding line_rejects_tiny_nonzero_direction",
+               "theorems are about exact real arithmetic; binary64 rounding is covered only by the tolerance of the "
                "correspondence check on sampled inputs",
                "the model is the code WITH fixes/C18-intersect-lines-sign-and-p0-on-line.diff and "
                "fixes/C18-intersect-2d-lines-determinant-test.diff applied"]
@@ -36,7 +43,9 @@ IMPORTS = [("PW.model", "M_line"), ("PW.proofs", "P_vec"), ("PW.proofs", "P_plan
 UNF = ("cbv [project_point_to_line project_points_to_line project_points_to_lines vg_project line_project "
        "line_project_stack reference_points line_intersect_line intersect_lines intersect_2d_lines lref lalong "
        "veqb vnormalize vnorm vnorm2 vdivs vcross map zip fst snd option_map orb negb "
-       "vlist vadd vsub vscale vdot vx vy vz n0 n1]; rops. rewrite ?Rplus_0_l in *.")
+       "vlist vadd vsub vscale vdot vx vy vz n0 n1]; rops. rewrite ?Rplus_0_l in *. "
+       # a power-of-two rescaling of the direction (literal constant c) cancels in the unit vector
+       "rewrite ?sqrt_scale3 by (unfold nfrac; rops; lra). try (unfold nfrac in *; rops).")
 HEAD = "Proof. intros {vars} Hpath. unfold {T}_path in Hpath; rops. path_facts Hpath. unfold {T}. " + UNF + "\n"
 VALS = "first [ reflexivity | f_equal; list_eq ltac:(first [ reflexivity | ring | field; nonzero_from_path ]) ]"
 
@@ -193,8 +202,11 @@ def gen_cases(rng, n, tier):
         if tier != "thorough" and rng.random() < 0.15:
             scale = 2.0 ** rng.choice([-30, -26, -22, 20, 25, 30])
         if u < 0.08:
-            # direction vectors of ANY non-zero length: tiny (max |a_i| < 2^-30, which Line refuses as almost zero),
-            # ordinary, huge; and the zero vector. Lengths between 2^-30 and 2^-20 are left out (Line's 1e-8 threshold).
+            # direction vectors of ANY non-zero length, and the zero vector; one case in four has extreme lengths
+            # (2^-1060..2^-480, 2^480..2^1020: squaring a component overflows / underflows), positions of unit size
+            extreme = rng.random() < 0.25
+            if extreme:
+                scale = 2.0 ** rng.randint(-10, 10)
             def direction():
                 w = rng.random()
                 if w < 0.08:
@@ -202,35 +214,43 @@ def gen_cases(rng, n, tier):
                 g = [0.0, 0.0, 0.0]
                 while not any(g):
                     g = grid_vec(rng, -3, 3, 2)
-                e = rng.randint(-45, -33) if w < 0.4 else rng.randint(-18, 20)
+                if extreme:
+                    e = rng.choice([rng.randint(-1060, -480), rng.randint(480, 1020)]) if w < 0.85 else rng.randint(-40, 20)
+                else:
+                    e = rng.randint(-45, 20)    # straddles Line's 1e-8 threshold: the comparison is exact on both sides
                 return [x * 2.0 ** e for x in g]
 
             kind = rng.choice(["proj_single", "proj_stack", "proj_pairs"])
+            ext = "_extreme" if extreme else ""
             if kind == "proj_single":
-                cases.append({"kind": kind, "p": [x * scale for x in grid_vec(rng)], "ref": [x * scale for x in grid_vec(rng)],
+                cases.append({"kind": kind + ext, "p": [x * scale for x in grid_vec(rng)], "ref": [x * scale for x in grid_vec(rng)],
                               "a": direction()})
             elif kind == "proj_stack":
                 k = rng.choice([0, 1, 2, 4])
-                cases.append({"kind": kind, "ps": [[x * scale for x in grid_vec(rng)] for _ in range(k)],
+                cases.append({"kind": kind + ext, "ps": [[x * scale for x in grid_vec(rng)] for _ in range(k)],
                               "ref": [x * scale for x in grid_vec(rng)], "a": direction()})
             else:
                 k = rng.choice([0, 1, 2, 2, 4])
-                cases.append({"kind": kind, "ps": [[x * scale for x in grid_vec(rng)] for _ in range(k)],
+                cases.append({"kind": kind + ext, "ps": [[x * scale for x in grid_vec(rng)] for _ in range(k)],
                               "refs": [[x * scale for x in grid_vec(rng)] for _ in range(k)],
                               "alongs": [direction() for _ in range(k)]})
         elif u < 0.11:
             w = rng.random()
-            if w < 0.3:
+            thr = False
+            if w < 0.25:
                 along = [0.0, 0.0, 0.0]
-            elif w < 0.45:
-                along = [x * 2.0 ** -40 for x in grid_vec(rng)]     # far below the 1e-8 threshold: rejected
+            elif w < 0.5:
+                # exactly at, one ulp below and one ulp above Line's threshold (the binary64 constant 1e-8)
+                t = [1e-8, float(np.nextafter(1e-8, 0.0)), float(np.nextafter(1e-8, 1.0))]
+                along = [rng.choice([-1, 1]) * rng.choice(t + [0.0, 2.0 ** -30]) for _ in range(3)]
+                thr = True
+            elif w < 0.65:
+                along = [x * 2.0 ** rng.randint(-45, -20) for x in grid_vec(rng)]
             else:
                 along = [x * scale for x in grid_vec(rng)]
-                if max(abs(x) for x in along) < 2.0 ** -20:            # keep clear of the 1e-8 threshold
-                    along = [x * 2.0 ** 20 for x in along]
             point = [x * scale for x in grid_vec(rng)]
-            if rng.random() < 0.5:
-                cases.append({"kind": "line_ctor", "point": point, "along": along})
+            if thr or rng.random() < 0.5:
+                cases.append({"kind": "line_ctor", "point": [0.0, 0.0, 0.0] if thr else point, "along": along})
             else:
                 cases.append({"kind": "line_from_points", "p1": point, "p2": [a + b for a, b in zip(point, along)]})
         elif u < 0.55:
@@ -255,7 +275,7 @@ def gen_cases(rng, n, tier):
             p0, q0, p1, q1 = ([x * sc for x in grid_vec(rng, -6, 6, 4)] for _ in range(4))
             if p0 != q0 and p1 != q1:
                 cases.append({"kind": "isect3_float_small", "p0": p0, "q0": q0, "p1": p1, "q1": q1})
-        elif u < 0.70:
+        elif u < 0.69:
             # float (dyadic) lines of moderate magnitude that meet by construction (or miss by a shift)
             sc = 2.0 ** rng.randint(-10, 9)
             m = [x * sc for x in grid_vec(rng, -4, 4, 4)]
@@ -269,6 +289,25 @@ def gen_cases(rng, n, tier):
                 p1, q1 = [a + b for a, b in zip(p1, sh)], [a + b for a, b in zip(q1, sh)]
             if p0 != q0 and p1 != q1:
                 cases.append({"kind": "isect3_float", "p0": p0, "q0": q0, "p1": p1, "q1": q1})
+        elif u < 0.73:
+            # arbitrary (non-dyadic) double lines of magnitude 1e-3..1e3 that meet up to rounding; half of them inside an
+            # axis-aligned plane, where the float triple product is exactly 0 and a point is returned. Judged by the
+            # oracle only (lies-on-both-lines clause): the exact model would decide coplanarity differently.
+            def coord():
+                return rng.choice([-1, 1]) * 10.0 ** rng.uniform(-3, 3)
+
+            m, d0, d1 = [coord() for _ in range(3)], [coord() for _ in range(3)], [coord() for _ in range(3)]
+            if rng.random() < 0.5:
+                ax = rng.randrange(3)
+                d0[ax] = d1[ax] = 0.0
+            mx = max(abs(x) for x in m)
+            d0 = [x * mx / max(abs(y) for y in d0) for x in d0]
+            d1 = [x * mx / max(abs(y) for y in d1) for x in d1]
+            s0, t0, s1, t1 = (rng.uniform(-1, 1) for _ in range(4))
+            p0, q0 = [a + s0 * x for a, x in zip(m, d0)], [a + t0 * x for a, x in zip(m, d0)]
+            p1, q1 = [a + s1 * x for a, x in zip(m, d1)], [a + t1 * x for a, x in zip(m, d1)]
+            if p0 != q0 and p1 != q1:
+                cases.append({"kind": "isect3_generic_float", "p0": p0, "q0": q0, "p1": p1, "q1": q1})
         else:
             p0, q0, p1, q1 = _lattice_pair_2d(rng)
             cases.append({"kind": "isect2_lattice", "p0": p0, "q0": q0, "p1": p1, "q1": q1, "int": rng.random() < 0.15})
@@ -295,19 +334,19 @@ def run_impl(c):
                 # Line refuses almost-zero directions (ValueError): recorded, the model goes through the constructor too
                 return call_impl(lambda: Line(r, a).project(pts).tolist())
 
-            if k == "proj_single":
+            if k.startswith("proj_single"):
                 p, r, a = np.array(c["p"]), np.array(c["ref"]), np.array(c["a"])
                 keep = [x.copy() for x in (p, r, a)]
                 o = {"fn": project_point_to_line(p, r, a).tolist(), "meth": line_form(r, a, p)}
                 o["args_unchanged"] = all(np.array_equal(x, y) for x, y in zip(keep, (p, r, a)))
                 return o
-            if k == "proj_stack":
+            if k.startswith("proj_stack"):
                 ps, r, a = _arr(c["ps"]), np.array(c["ref"]), np.array(c["a"])
                 keep = [x.copy() for x in (ps, r, a)]
                 o = {"fn": project_point_to_line(ps, r, a).tolist(), "meth": line_form(r, a, ps)}
                 o["args_unchanged"] = all(np.array_equal(x, y) for x, y in zip(keep, (ps, r, a)))
                 return o
-            if k == "proj_pairs":
+            if k.startswith("proj_pairs"):
                 ps, rs, al = _arr(c["ps"]), _arr(c["refs"]), _arr(c["alongs"])
                 keep = [x.copy() for x in (ps, rs, al)]
                 o = {"rows": project_point_to_line(ps, rs, al).tolist(),
@@ -354,15 +393,17 @@ def coq_case(c, o):
         return "CFromPoints %s %s %s" % (qv(c["p1"]), qv(c["p2"]), obs)
     if isinstance(o, dict) and "raise" in o:
         return "CIsect2 (0, 0) (0, 0) (0, 0) (0, 0) [FNan]"      # unexpected exception: make the case fail in Coq
-    if k == "proj_single":
+    if k == "isect3_generic_float":
+        return "CSkip"
+    if k.startswith("proj_single"):
         m = o["meth"]
         meth = "(Raise %s)" % m["raise"] if isinstance(m, dict) else "(Ok %s)" % flv(m)
         return "CProj %s %s %s %s %s" % (qv(c["p"]), qv(c["ref"]), qv(c["a"]), flv(o["fn"]), meth)
-    if k == "proj_stack":
+    if k.startswith("proj_stack"):
         m = o["meth"]
         meth = "(Raise %s)" % m["raise"] if isinstance(m, dict) else "(Ok %s)" % _rows(m)
         return "CProjStack %s %s %s %s %s" % (coq_list(qv(p) for p in c["ps"]), qv(c["ref"]), qv(c["a"]), _rows(o["fn"]), meth)
-    if k == "proj_pairs":
+    if k.startswith("proj_pairs"):
         return "CProjPairs %s %s %s %s" % (coq_list(qv(p) for p in c["ps"]), coq_list(qv(p) for p in c["refs"]),
                                            coq_list(qv(p) for p in c["alongs"]), _rows(o["rows"]))
     if k.startswith("isect3"):
@@ -421,59 +462,109 @@ def _project_oracle(p, r, a, row, what):
     return None
 
 
-def oracle(c, o):
-    """The property text evaluated on the implementation's outputs with exact rational arithmetic."""
+ATOL = 1e-8   # vg.almost_zero
+
+
+def _extreme(a):
+    """|direction| outside [1e-150, 1e150]: squaring a component overflows / underflows in binary64"""
+    m = max(abs(e) for e in a)
+    return m != 0 and not (1e-150 <= m <= 1e150)
+
+
+def _line_raise(a, m):
+    """judge a ValueError / acceptance of Line for direction a; m = observed (dict with "raise" or anything else)"""
+    raised = isinstance(m, dict) and "raise" in m
+    zero = all(e == 0 for e in a)
+    if raised and m["raise"] != "ValueError":
+        return ("other", "Line raised %s" % m["raise"])
+    if zero and not raised:
+        return ("other", "Line accepted a zero direction")
+    if raised and not zero:
+        # "direction vectors of any non-zero length": the refusal of a non-zero direction is a failure of the text;
+        # it is the listed finding when every component is <= 1e-8
+        tag = "tiny_line" if max(abs(e) for e in a) <= ATOL else "other"
+        return (tag, "Line rejected the non-zero direction %r" % (a,))
+    return None
+
+
+def _failures(c, o):
+    """every way the property text fails on this case: list of (class tag, message)"""
     k = c["kind"]
+    out = []
     if k in ("line_ctor", "line_from_points"):
         along = c["along"] if k == "line_ctor" else [b - a for a, b in zip(c["p1"], c["p2"])]
-        zero = all(x == 0 for x in along)
-        tiny = max(abs(x) for x in along) < 1e-9
+        f = _line_raise(along, o)
+        if f:
+            return [f]
         if "raise" in o:
-            if o["raise"] != "ValueError":
-                return "Line raised %s" % o["raise"]
-            return None if (zero or tiny) else "Line rejected the non-zero direction %r" % (along,)
-        if zero:
-            return "Line accepted a zero direction"
+            return []
         point = c["point"] if k == "line_ctor" else c["p1"]
-        if o["refs"][0] != point or not _near(o["refs"][1], [Fr(a) + Fr(b) for a, b in zip(point, along)], 1):
-            return "reference_points are not (point, point + along)"
-        return None
+        mg = max([abs(x) for x in point + along]) or 1
+        if o["refs"][0] != point or not _near(o["refs"][1], [Fr(a) + Fr(b) for a, b in zip(point, along)], Fr(mg)):
+            out.append(("other", "reference_points are not (point, point + along)"))
+        return out
     if isinstance(o, dict) and "raise" in o:
-        return "unexpected exception %s: %s" % (o["raise"], o.get("msg"))
+        return [("other", "unexpected exception %s: %s" % (o["raise"], o.get("msg")))]
     if not o["args_unchanged"]:
-        return "an argument array was modified"
-    if k in ("proj_single", "proj_stack"):
+        return [("other", "an argument array was modified")]
+    if k.startswith("proj_single") or k.startswith("proj_stack"):
         a = c["a"]
-        zero = all(e == 0 for e in a)
         m = o["meth"]
         raised = isinstance(m, dict)
-        if raised and m["raise"] != "ValueError":
-            return "Line raised %s" % m["raise"]
-        if zero and not raised:
-            return "Line accepted a zero direction"
-        if raised and max(abs(e) for e in a) > 2.0 ** -25:
-            return "Line rejected the non-zero direction %r" % (a,)
-        pts = [c["p"]] if k == "proj_single" else c["ps"]
-        fn = [o["fn"]] if k == "proj_single" else o["fn"]
-        me = None if raised else ([m] if k == "proj_single" else m)
+        f = _line_raise(a, m)
+        if f:
+            out.append(f)
+        single = k.startswith("proj_single")
+        pts = [c["p"]] if single else c["ps"]
+        fn = [o["fn"]] if single else o["fn"]
+        me = None if raised else ([m] if single else m)
         if len(fn) != len(pts) or (me is not None and len(me) != len(pts)):
-            return "wrong number of rows"
+            return [("other", "wrong number of rows")]
+        tag = "overflow" if _extreme(a) else "other"
         for i, p in enumerate(pts):
             f = _project_oracle(p, c["ref"], a, fn[i], "project_point_to_line row %d" % i)
-            if not f and me is not None:
+            if f:
+                out.insert(0, (tag, f))
+            if me is not None:
                 f = _project_oracle(p, c["ref"], a, me[i], "Line.project row %d" % i)
-            if f:
-                return f
-        return None
-    if k == "proj_pairs":
+                if f:
+                    out.insert(0, (tag, f))
+        return out
+    if k.startswith("proj_pairs"):
         if len(o["rows"]) != len(c["ps"]):
-            return "wrong number of rows"
+            return [("other", "wrong number of rows")]
         for i, p in enumerate(c["ps"]):
-            f = _project_oracle(p, c["refs"][i], c["alongs"][i], o["rows"][i], "project_point_to_line (paired) row %d" % i)
-            f = f or _project_oracle(p, c["refs"][i], c["alongs"][i], o["single"][i], "project_point_to_line (single) row %d" % i)
-            if f:
-                return f
+            tag = "overflow" if _extreme(c["alongs"][i]) else "other"
+            for rows, what in ((o["rows"], "paired"), (o["single"], "single")):
+                f = _project_oracle(p, c["refs"][i], c["alongs"][i], rows[i], "project_point_to_line (%s) row %d" % (what, i))
+                if f:
+                    out.append((tag, f))
+        return out
+    f = _isect_oracle(c, o)
+    return [("other", f)] if f else []
+
+
+def oracle(c, o):
+    """The property text evaluated on the implementation's outputs with exact rational arithmetic."""
+    fs = _failures(c, o)
+    return fs[0][1] if fs else None
+
+
+KNOWN = {"overflow": "projection_direction_overflow", "tiny_line": "line_rejects_tiny_nonzero_direction"}
+
+
+def classify(c, o, failure, disagrees):
+    """a listed finding only when EVERY failure of the case belongs to a listed class (site + input class):
+    project_point_to_line / Line.project with |direction| outside [1e-150, 1e150]; Line(...) raising ValueError for a
+    non-zero direction with all components <= 1e-8"""
+    fs = _failures(c, o)
+    if not fs or any(t not in KNOWN for t, _ in fs):
         return None
+    return KNOWN[fs[0][0]]
+
+
+def _isect_oracle(c, o):
+    k = c["kind"]
     p0, q0, p1, q1 = (_F(c[n]) for n in ("p0", "q0", "p1", "q1"))
     mag = max(abs(e) for e in p0 + q0 + p1 + q1)   # non-zero: p0 != q0
     if k.startswith("isect3"):
@@ -488,6 +579,8 @@ def oracle(c, o):
                 x = _F(res)
                 if _off_line(x, p0, e, mag) or _off_line(x, p1, f, mag):
                     return "%s returned %r, which is not on both lines" % (what, res)
+            if k == "isect3_generic_float":
+                continue     # arbitrary doubles: only the lies-on-both-lines clause applies
             if any(kk):
                 if _dot(g, kk) == 0:
                     lam = _dot(h, kk) / _dot(kk, kk)
@@ -527,8 +620,4 @@ def oracle(c, o):
         distinct = w[0] * d0[1] - w[1] * d0[0] != 0
         if distinct and res is not None:
             return "intersect_2d_lines returned %r for parallel distinct lines" % (res,)
-    return None
-
-
-def classify(c, o, failure, disagrees):
     return None
